@@ -556,7 +556,7 @@ func initDateTime() {
 		"zeptoseconds_in_second",
 		func(_ *Thread, args []value.Value) (value.Value, value.Value) {
 			self := args[0].MustReference().(*value.DateTime)
-			return value.Ref(value.ToElkBigInt(self.ZeptosecondsInSecond())), value.Undefined
+			return value.ToElkBigInt(self.ZeptosecondsInSecond()).Normalize(), value.Undefined
 		},
 	)
 	Def(
@@ -564,7 +564,7 @@ func initDateTime() {
 		"yoctoseconds_in_second",
 		func(_ *Thread, args []value.Value) (value.Value, value.Value) {
 			self := args[0].MustReference().(*value.DateTime)
-			return value.Ref(value.ToElkBigInt(self.YoctosecondsInSecond())), value.Undefined
+			return value.ToElkBigInt(self.YoctosecondsInSecond()).Normalize(), value.Undefined
 		},
 	)
 	Def(
@@ -589,7 +589,7 @@ func initDateTime() {
 		"unix_microseconds",
 		func(_ *Thread, args []value.Value) (value.Value, value.Value) {
 			self := args[0].MustReference().(*value.DateTime)
-			return value.Ref(value.ToElkBigInt(self.UnixMicroseconds())), value.Undefined
+			return value.ToElkBigInt(self.UnixMicroseconds()).Normalize(), value.Undefined
 		},
 	)
 	Def(
@@ -597,7 +597,7 @@ func initDateTime() {
 		"unix_nanoseconds",
 		func(_ *Thread, args []value.Value) (value.Value, value.Value) {
 			self := args[0].MustReference().(*value.DateTime)
-			return value.Ref(value.ToElkBigInt(self.UnixNanoseconds())), value.Undefined
+			return value.ToElkBigInt(self.UnixNanoseconds()).Normalize(), value.Undefined
 		},
 	)
 	Def(
@@ -605,7 +605,7 @@ func initDateTime() {
 		"unix_picoseconds",
 		func(_ *Thread, args []value.Value) (value.Value, value.Value) {
 			self := args[0].MustReference().(*value.DateTime)
-			return value.Ref(value.ToElkBigInt(self.UnixPicoseconds())), value.Undefined
+			return value.ToElkBigInt(self.UnixPicoseconds()).Normalize(), value.Undefined
 		},
 	)
 	Def(
@@ -613,7 +613,7 @@ func initDateTime() {
 		"unix_femtoseconds",
 		func(_ *Thread, args []value.Value) (value.Value, value.Value) {
 			self := args[0].MustReference().(*value.DateTime)
-			return value.Ref(value.ToElkBigInt(self.UnixFemtoseconds())), value.Undefined
+			return value.ToElkBigInt(self.UnixFemtoseconds()).Normalize(), value.Undefined
 		},
 	)
 	Def(
@@ -621,7 +621,7 @@ func initDateTime() {
 		"unix_attoseconds",
 		func(_ *Thread, args []value.Value) (value.Value, value.Value) {
 			self := args[0].MustReference().(*value.DateTime)
-			return value.Ref(value.ToElkBigInt(self.UnixAttoseconds())), value.Undefined
+			return value.ToElkBigInt(self.UnixAttoseconds()).Normalize(), value.Undefined
 		},
 	)
 	Def(
@@ -629,7 +629,7 @@ func initDateTime() {
 		"unix_zeptoseconds",
 		func(_ *Thread, args []value.Value) (value.Value, value.Value) {
 			self := args[0].MustReference().(*value.DateTime)
-			return value.Ref(value.ToElkBigInt(self.UnixZeptoseconds())), value.Undefined
+			return value.ToElkBigInt(self.UnixZeptoseconds()).Normalize(), value.Undefined
 		},
 	)
 	Def(
@@ -637,7 +637,7 @@ func initDateTime() {
 		"unix_yoctoseconds",
 		func(_ *Thread, args []value.Value) (value.Value, value.Value) {
 			self := args[0].MustReference().(*value.DateTime)
-			return value.Ref(value.ToElkBigInt(self.UnixYoctoseconds())), value.Undefined
+			return value.ToElkBigInt(self.UnixYoctoseconds()).Normalize(), value.Undefined
 		},
 	)
 
